@@ -551,7 +551,7 @@ func c18AlignSecond() time.Time {
 	return time.Now()
 }
 
-func c18VerifyCase(out *verifh.Out, r *verifh.Rand, sg *c18Signers, flavour int, w c18Window, hv int, chainLen int, subSecond time.Duration) {
+func c18VerifyCase(out *verifh.Out, r *verifh.Rand, sg *c18Signers, flavour int, w c18Window, hv int, chainLen int, subSecond time.Duration) int64 {
 	ids := newC18Ids()
 	c18AlignSecond()
 	if subSecond > 0 {
@@ -588,6 +588,13 @@ func c18VerifyCase(out *verifh.Out, r *verifh.Rand, sg *c18Signers, flavour int,
 		others = append(others, b)
 	}
 	hashes := c18HashList(r, out, hv, pinned.raw, others)
+	if len(chain) >= 2 && r.Chance(1, 3) {
+		// every certificate of the chain is pinned: what differs is which one gets its validity rules checked
+		for _, c := range chain {
+			hashes = append(hashes, c18Sha256MH(c.raw))
+		}
+		out.Cover("verify.chain2_all_pinned")
+	}
 	raws := make([][]byte, len(chain))
 	for i, c := range chain {
 		raws[i] = c.raw
@@ -616,10 +623,11 @@ func c18VerifyCase(out *verifh.Out, r *verifh.Rand, sg *c18Signers, flavour int,
 			}
 		}
 		if !pinnedFirst {
-			out.Cover("verify.chain2_accepted_while_first_cert_not_pinned(DESIGN-9-item-11)")
+			out.Cover("verify.chain2_accepted_first_cert_unpinned")
 		}
 	}
 	out.Case(line)
+	return res
 }
 
 // ---- real dials -------------------------------------------------------------------
@@ -683,7 +691,7 @@ func (d *c18Dialer) dialOnce(addr ma.Multiaddr) int64 {
 // one dial: the server presents [chain] (nil = its own current certificate),
 // sends [ser] as early data (nil = what its certManager holds), the dialer
 // uses an address carrying [comps]
-func (d *c18Dialer) run(chain []c18Cert, ser [][]byte, useSer bool, hashes []multihash.DecodedMultihash) {
+func (d *c18Dialer) run(chain []c18Cert, ser [][]byte, useSer bool, hashes []multihash.DecodedMultihash) int64 {
 	ids := newC18Ids()
 	m := d.mgr
 	m.mx.Lock()
@@ -740,6 +748,7 @@ func (d *c18Dialer) run(chain []c18Cert, ser [][]byte, useSer bool, hashes []mul
 	line = append(line, outcome)
 	d.out.Cover(fmt.Sprintf("dial.outcome_%d", outcome))
 	d.out.Case(line)
+	return outcome
 }
 
 func c18Dials(t *testing.T, out *verifh.Out, r *verifh.Rand, sg *c18Signers, n int) {
@@ -891,7 +900,15 @@ func c18Dials(t *testing.T, out *verifh.Out, r *verifh.Rand, sg *c18Signers, n i
 		c := c18MakeCert(sg, v.flavour, base0.Add(v.nb), base0.Add(v.na))
 		pin := c18Sha256MH(c.raw)
 		ser := [][]byte{enc(pin)}
-		d.run([]c18Cert{c}, ser, true, []multihash.DecodedMultihash{pin})
+		oc := d.run([]c18Cert{c}, ser, true, []multihash.DecodedMultihash{pin})
+		if v.flavour == c18RsaPss || v.flavour == c18RsaKeyEcSig {
+			// fixed corpus: the witnesses of the repaired RSA defect must be refused by a real Dial
+			if oc == 1 {
+				out.Cover("corpus.dial." + v.name + ".refused")
+			} else {
+				out.Cover("corpus.dial." + v.name + ".NOT_REFUSED")
+			}
+		}
 		d.run([]c18Cert{c}, ser, true, []multihash.DecodedMultihash{hCur})
 		d.run([]c18Cert{c}, origSer, true, []multihash.DecodedMultihash{pin})
 		out.Cover("dial.server_presents." + v.name)
@@ -901,7 +918,67 @@ func c18Dials(t *testing.T, out *verifh.Out, r *verifh.Rand, sg *c18Signers, n i
 		a := c18MakeCert(sg, c18Ecdsa, base0.Add(-day), base0.Add(day))
 		b := c18Cert{raw: cur.tlsConf.Certificates[0].Leaf.Raw}
 		d.run([]c18Cert{a, b}, origSer, true, []multihash.DecodedMultihash{hCur})
-		out.Cover("dial.chain2_first_unpinned_last_pinned(DESIGN-9-item-11)")
+		out.Cover("dial.chain2_first_unpinned_last_pinned")
+		// both pinned and confirmed, but the certificate that authenticates the session has expired
+		e := c18MakeCert(sg, c18Ecdsa, base0.Add(-3*day), base0.Add(-day))
+		pinE := c18Sha256MH(e.raw)
+		d.run([]c18Cert{e, b}, append(append([][]byte{}, origSer...), enc(pinE)), true, []multihash.DecodedMultihash{pinE, hCur})
+		out.Cover("dial.chain2_first_expired_both_pinned")
+		// control: the same two certificates in TLS order [pinned current, extra] are fine
+		d.run([]c18Cert{{raw: b.raw, priv: cur.tlsConf.Certificates[0].PrivateKey, leaf: cur.tlsConf.Certificates[0].Leaf}, a}, origSer, true, []multihash.DecodedMultihash{hCur})
+		out.Cover("dial.chain2_first_pinned_last_unpinned")
+	}
+	// a second node with the same key, freshly started in the same period (= the first one after a
+	// restart): lastConfig is nil.  An address learned in the previous period ([last, cur]) still pins the
+	// served certificate; what the dial does is recorded (outside the property text, see the manifest)
+	{
+		cmB, err := quicreuse.NewConnManager(quic.StatelessResetKey{}, quic.TokenGeneratorKey{})
+		if err != nil {
+			t.Fatal(err)
+		}
+		defer cmB.Close()
+		clB := clock.NewMock()
+		clB.Set(realNow)
+		trB, err := New(srvKey, nil, cmB, nil, &network.NullResourceManager{}, WithClock(clB))
+		if err != nil {
+			t.Fatal(err)
+		}
+		srvB := trB.(*transport)
+		defer srvB.Close()
+		lnB, err := srvB.Listen(ma.StringCast("/ip4/127.0.0.1/udp/0/quic-v1/webtransport"))
+		if err != nil {
+			t.Fatal(err)
+		}
+		defer lnB.Close()
+		go func() {
+			for {
+				c, err := lnB.Accept()
+				if err != nil {
+					return
+				}
+				go func() { time.Sleep(200 * time.Millisecond); c.Close() }()
+			}
+		}()
+		mB := srvB.certManager
+		mB.mx.RLock()
+		curB := mB.currentConfig
+		serB := append([][]byte{}, mB.serializedCertHashes...)
+		lastNil := mB.lastConfig == nil
+		mB.mx.RUnlock()
+		baseB := lnB.Multiaddr().String()
+		if i := strings.Index(baseB, "/certhash/"); i >= 0 {
+			baseB = baseB[:i]
+		}
+		if curB.sha256 != cur.sha256 || !lastNil {
+			out.Cover("restart.fresh_node_differs_from_running_node")
+		}
+		dB := &c18Dialer{out: out, r: r, srvKey: srvKey, srvID: srvID, srv: srvB, cli: cli, base: baseB, mgr: mB, origCur: curB, origSer: serB}
+		oc := dB.run(nil, nil, false, []multihash.DecodedMultihash{hLast, hCur})
+		out.Cover(fmt.Sprintf("restart.dial_with_previous_period_address.outcome_%d", oc))
+		oc = dB.run(nil, nil, false, []multihash.DecodedMultihash{hCur, hNext})
+		out.Cover(fmt.Sprintf("restart.dial_with_current_period_address.outcome_%d", oc))
+		oc = d.run(nil, nil, false, []multihash.DecodedMultihash{hLast, hCur})
+		out.Cover(fmt.Sprintf("running.dial_with_previous_period_address.outcome_%d", oc))
 	}
 	// random combinations
 	for i := 0; i < n; i++ {
@@ -958,6 +1035,17 @@ func TestVerifC18(t *testing.T) {
 		// the full table once: flavour x window x hash variant with a chain of one
 		rr := r.Fork()
 		ws := c18Windows(rr)
+		// fixed corpus: the witnesses of the repaired RSA defect (pinned, currently valid) must be refused as RSA
+		for _, cp := range []struct {
+			f    int
+			name string
+		}{{c18RsaPss, "rsa_key_rsa_pss_sig"}, {c18RsaKeyEcSig, "rsa_key_ecdsa_issuer"}} {
+			if c18VerifyCase(out, rr, sg, cp.f, ws[0], 0, 1, 0) == 4 {
+				out.Cover("corpus.verify." + cp.name + ".refused")
+			} else {
+				out.Cover("corpus.verify." + cp.name + ".NOT_REFUSED")
+			}
+		}
 		for f := 0; f < c18Flavours; f++ {
 			for _, w := range ws {
 				c18VerifyCase(out, rr, sg, f, w, 0, 1, 0)
